@@ -55,10 +55,6 @@ Section Sort.
   Hypothesis lt_ntrans : forall a b c, P a -> P b -> P c ->
     lt b a = false -> lt c b = false -> lt c a = false.
 
-  (* every later element is not less than any earlier one *)
-  Definition asc (l : list A) : Prop :=
-    forall l1 a l2 b l3, l = l1 ++ a :: l2 ++ b :: l3 -> lt (key b) (key a) = false.
-
   Inductive sorted_asc : list A -> Prop :=
   | sa_nil : sorted_asc []
   | sa_cons x l : Forall (fun y => lt (key y) (key x) = false) l -> sorted_asc l -> sorted_asc (x :: l).
